@@ -6,6 +6,7 @@ import (
 	"fmt"
 	"os"
 	"path/filepath"
+	"go/types"
 	"regexp"
 	"runtime"
 	"sort"
@@ -449,6 +450,25 @@ func runCheck(repo, verif, prop, tier string, verbose bool) int {
 	scratch, _ := os.MkdirTemp("/var/tmp", "govc.")
 	defer os.RemoveAll(scratch)
 	st := solveAll(all, timeout, runtime.NumCPU(), scratch, cross)
+	// an obligation no solver decided within the time limit (machine load, an unlucky search) is tried again
+	// on its own with a much longer limit before anything is concluded from it
+	var again []*Obligation
+	for _, o := range all {
+		if o.Verdict == "unknown" && o.Kind != "cover" {
+			o.Verdict, o.Model = "", ""
+			again = append(again, o)
+		}
+	}
+	if len(again) > 0 {
+		st2 := solveAll(again, timeout*6, 4, scratch, false)
+		st.Queries += st2.Queries
+		for k, v := range st2.Seconds {
+			st.Seconds[k] += v
+		}
+		for k, v := range st2.ByBackend {
+			st.ByBackend[k] += v
+		}
+	}
 
 	// group by name
 	type group struct {
@@ -613,7 +633,7 @@ func runCheck(repo, verif, prop, tier string, verbose bool) int {
 		smtPath := strings.TrimSuffix(rp, ".json") + ".smt2"
 		os.WriteFile(smtPath, []byte(f.smt(true)), 0o644)
 		rec := map[string]interface{}{"property": prop, "obligation": name, "function": f.Fn, "position": f.Pos, "what": f.Note, "verdict": f.Verdict,
-			"backend": f.Backend, "solver_output": truncate(f.Model, 20000), "witness": f.Values, "smt_query": smtPath, "failed_path_instances": len(g.failed), "path_instances": len(g.instances)}
+			"backend": f.Backend, "solver_output": truncate(f.Model, 20000), "witness": f.Values, "smt_query": smtPath, "failed_path_instances": len(g.failed), "path_instances": len(g.instances), "opaque_dependency": f.OpqDep}
 		suffix := ""
 		replayed := tryReplay(e, verif, repo, prop, f, rec)
 		if !replayed {
@@ -621,7 +641,18 @@ func runCheck(repo, verif, prop, tier string, verbose bool) int {
 			// A failed proof is a violation only when the obligation is one the unchanged tree discharges and
 			// the code it talks about is still the code the contract was written against. Otherwise the honest
 			// answer is "undecided" (the proof needs maintenance), never an alarm.
-			if why := e.notAViolation(f, name, baseShapes, evalErrFns); why != "" {
+			why := e.notAViolation(f, name, baseShapes, evalErrFns)
+			if why == "" && f.Kind == "ensures" && f.Verdict != "structural-fail" {
+				// (g) the function now calls something the engine has neither body nor contract for: such a function
+				// is checked with that part abstracted, and only refutations that replay on the real code are
+				// trusted -- where a replay driver exists and searched without finding a failing input
+				if rs, _ := rec["replay"].(string); strings.HasPrefix(rs, "the model did not reproduce") {
+					if nc := e.newUncontractedCall(f.Fn); nc != "" {
+						why = f.Fn + " now calls " + nc + " (no contract, not called in the baseline); its replay driver ran the model and its bounded search without finding a failing input"
+					}
+				}
+			}
+			if why != "" {
 				if strings.HasPrefix(why, "assume:") {
 					notes[strings.TrimPrefix(why, "assume:")] = true
 					discharged++
@@ -854,6 +885,285 @@ func listObligations(e *Engine, prop string) []string {
 // notAViolation decides whether an undischarged obligation (for which no failing input could be
 // replayed) may be reported as a violation. It returns "" if so, else the reason it is only undecided;
 // a reason starting with "assume:" is recorded as an assumption instead.
+var unlabelledEnsures = regexp.MustCompile(`/ensures\[\d+\]$`)
+
+// callsBrokenContract: does fn call a repo function whose helper postconditions (unlabelled ensures) fail for
+// that function's own body on this tree? Returns the callee key.
+func (e *Engine) callsBrokenContract(fn *ssa.Function) string {
+	if fn == nil {
+		return ""
+	}
+	if e.brokenMemo == nil {
+		e.brokenMemo = map[string]bool{}
+	}
+	seen := map[string]bool{}
+	for _, b := range fn.Blocks {
+		for _, in := range b.Instrs {
+			var cc *ssa.CallCommon
+			switch x := in.(type) {
+			case *ssa.Call:
+				cc = &x.Call
+			case *ssa.Defer:
+				cc = &x.Call
+			case *ssa.Go:
+				cc = &x.Call
+			}
+			if cc == nil {
+				continue
+			}
+			k := calleeName(cc)
+			if impl, ok := e.contracts.dispatch[k]; ok {
+				k = impl
+			}
+			if k == "" || seen[k] {
+				continue
+			}
+			seen[k] = true
+			fc := e.contracts.funcs[k]
+			cf := e.fnByKey[k]
+			if fc == nil || fc.Assumed || cf == nil || !e.isRepoFn(cf) || len(cf.Blocks) == 0 || cf == fn {
+				continue
+			}
+			broken, done := e.brokenMemo[k]
+			if !done {
+				var obls []*Obligation
+				for _, o := range e.verifyFunction(fc).Obls {
+					if unlabelledEnsures.MatchString(o.Name) {
+						obls = append(obls, o)
+					}
+				}
+				if len(obls) > 0 {
+					scratch, _ := os.MkdirTemp("/var/tmp", "govc.")
+					solveAll(obls, 10, runtime.NumCPU(), scratch, false)
+					os.RemoveAll(scratch)
+					for _, o := range obls {
+						if !(o.Verdict == "unsat" || o.Verdict == "syntactic") {
+							broken = true
+						}
+					}
+				}
+				e.brokenMemo[k] = broken
+			}
+			if broken {
+				return k
+			}
+		}
+	}
+	return ""
+}
+
+var loopRuleNote = regexp.MustCompile("(^|[`: ])loop \\d+ ")
+var loopCountRule = regexp.MustCompile("`loop \\d+ (?:exactly|atleast) \\d+ (\\S+?)[` ]")
+
+// callsOutsideLoops: fn (or a closure of fn that the baseline did not have) calls a callee matching pat in
+// a block that belongs to no loop.
+func (e *Engine) callsOutsideLoops(fn *ssa.Function, pat string, base map[string]Shape) string {
+	scan := func(g *ssa.Function, anywhere bool) bool {
+		li := e.loopInfo(g)
+		for _, b := range g.Blocks {
+			inLoop := false
+			for _, body := range li.body {
+				if body[b] {
+					inLoop = true
+				}
+			}
+			if inLoop && !anywhere {
+				continue
+			}
+			for _, in := range b.Instrs {
+				if c, ok := in.(*ssa.Call); ok {
+					if n := calleeName(&c.Call); n != "" && matchEvent(pat, n) {
+						return true
+					}
+				}
+			}
+		}
+		return false
+	}
+	if scan(fn, false) {
+		return qualFnName(fn)
+	}
+	for _, an := range fn.AnonFuncs {
+		if _, known := base[qualFnName(an)]; !known && scan(an, true) {
+			return qualFnName(an)
+		}
+	}
+	return ""
+}
+
+// obligationMentionsHeapField: does the query read the heap of a field (symbols h!F!<pkg>.<Type>.<field>!n or
+// H0!F!...; the address function fa!... alone does not count)?
+func obligationMentionsHeapField(f *Obligation, typeDotField string) bool {
+	has := func(t string) bool {
+		for i := 0; ; {
+			j := strings.Index(t[i:], typeDotField)
+			if j < 0 {
+				return false
+			}
+			j += i
+			end := j + len(typeDotField)
+			if end >= len(t) || t[end] == '!' || t[end] == '|' {
+				k := strings.LastIndexByte(t[:j], '|')
+				if k >= 0 && (strings.HasPrefix(t[k+1:], "h!F!") || strings.HasPrefix(t[k+1:], "H0!F!")) {
+					return true
+				}
+			}
+			i = end
+		}
+	}
+	if has(f.Goal.S) {
+		return true
+	}
+	for _, a := range f.Assume {
+		if has(a.S) {
+			return true
+		}
+	}
+	return false
+}
+
+// obligationMentions: does the query (path condition or goal) mention a symbol containing frag?
+func obligationMentions(f *Obligation, frag string) bool {
+	if strings.Contains(f.Goal.S, frag) {
+		return true
+	}
+	for _, a := range f.Assume {
+		if strings.Contains(a.S, frag) {
+			return true
+		}
+	}
+	return false
+}
+
+// newLoopNested: is a loop that the baseline did not have (by the source form of its header) nested inside
+// another loop of fn? (Then an iteration of the outer loop runs through code without an invariant.)
+func (e *Engine) newLoopNested(fn *ssa.Function, b Shape) bool {
+	li := e.loopInfo(fn)
+	cur := e.shapeOf(fn)
+	old := map[string]int{}
+	for _, sg := range b.LoopSigs {
+		old[sg]++
+	}
+	for h, ord := range li.ordinal {
+		if ord < 1 || ord > len(cur.LoopSigs) {
+			return true
+		}
+		sg := cur.LoopSigs[ord-1]
+		if old[sg] > 0 {
+			old[sg]--
+			continue
+		}
+		for h2, body := range li.body {
+			if h2 != h && body[h] {
+				return true
+			}
+		}
+	}
+	return false
+}
+
+// loopForm classifies the source form of a loop header: range, endless, condition-only, three-clause.
+func loopForm(sig string) string {
+	switch {
+	case strings.HasPrefix(sig, "range "):
+		return "range"
+	case strings.HasPrefix(sig, "for "):
+		parts := strings.Split(strings.TrimPrefix(sig, "for "), ";")
+		if len(parts) == 3 {
+			f := ""
+			for _, p := range parts {
+				if strings.TrimSpace(p) == "" {
+					f += "-"
+				} else {
+					f += "x"
+				}
+			}
+			return "for:" + f
+		}
+		return "for:cond"
+	}
+	return sig
+}
+
+// callsNewFunction: a repo function called by fn that is not part of the baseline
+func (e *Engine) callsNewFunction(fn *ssa.Function, base map[string]Shape) string {
+	if fn == nil {
+		return ""
+	}
+	for _, b := range fn.Blocks {
+		for _, in := range b.Instrs {
+			var cc *ssa.CallCommon
+			switch x := in.(type) {
+			case *ssa.Call:
+				cc = &x.Call
+			case *ssa.Defer:
+				cc = &x.Call
+			case *ssa.Go:
+				cc = &x.Call
+			}
+			if cc == nil {
+				continue
+			}
+			if callee := cc.StaticCallee(); callee != nil && e.isRepoFn(callee) && len(callee.Blocks) > 0 {
+				if _, known := base[qualFnName(callee)]; !known && callee.Parent() == nil {
+					return qualFnName(callee)
+				}
+			}
+		}
+	}
+	return ""
+}
+
+// readsNewField: does fn access a struct field (of a repo struct known to the baseline) that the baseline
+// struct did not have and that is not a renamed old field?
+func (e *Engine) readsNewField(fn *ssa.Function) string {
+	if fn == nil || len(e.baseNames.Structs) == 0 {
+		return ""
+	}
+	check := func(st types.Type, idx int) string {
+		if p, ok := st.Underlying().(*types.Pointer); ok {
+			st = p.Elem()
+		}
+		named, ok := st.(*types.Named)
+		if !ok || named.Obj().Pkg() == nil {
+			return ""
+		}
+		tk := named.Obj().Pkg().Name() + "." + named.Obj().Name()
+		bf, known := e.baseNames.Structs[tk]
+		su, ok := named.Underlying().(*types.Struct)
+		if !known || !ok || idx >= su.NumFields() {
+			return ""
+		}
+		name := su.Field(idx).Name()
+		for _, f := range bf {
+			if len(f) > 0 && f[0] == name {
+				return ""
+			}
+		}
+		for _, n := range e.fieldAlias {
+			if n == name {
+				return ""
+			}
+		}
+		return tk + "." + name
+	}
+	for _, b := range fn.Blocks {
+		for _, in := range b.Instrs {
+			switch x := in.(type) {
+			case *ssa.FieldAddr:
+				if r := check(x.X.Type(), x.Field); r != "" {
+					return r
+				}
+			case *ssa.Field:
+				if r := check(x.X.Type(), x.Field); r != "" {
+					return r
+				}
+			}
+		}
+	}
+	return ""
+}
+
 func (e *Engine) notAViolation(f *Obligation, name string, base map[string]Shape, evalErrFns map[string]bool) string {
 	owner := name
 	if i := strings.Index(owner, "/"); i >= 0 {
@@ -924,6 +1234,90 @@ func (e *Engine) notAViolation(f *Obligation, name string, base map[string]Shape
 		}
 		if proofInternal[f.Kind] && !sameShape(b, e.shapeOf(fn)) {
 			return "the structure of " + k + " (loops, closures, captured variables, signature) differs from the baseline its proof was written against"
+		}
+	}
+	if f.Verdict != "structural-fail" {
+		for _, k := range []string{owner, f.Fn} {
+			fn := e.fnByKey[k]
+			b, known := base[k]
+			if fn == nil || !known {
+				continue
+			}
+			cur := e.shapeOf(fn)
+			// (a) a loop the contract has no clause for: the function is outside the verified subset
+			// ("every loop with an invariant") until the contract is extended
+			if cur.Loops > b.Loops && !(f.Kind == "trace" && loopRuleNote.MatchString(f.Note) && !e.newLoopNested(fn, b)) {
+				return fmt.Sprintf("%s has a loop the baseline did not have (%d loops, baseline %d): it needs an invariant before anything after it can be proved", k, cur.Loops, b.Loops)
+			}
+			// (a2) a loop the contract has clauses for no longer exists (two passes merged into one, a loop replaced
+			// by a library call): the invariants that carried the proof are gone with it
+			if fc := e.contracts.funcs[k]; fc != nil && cur.Loops < b.Loops && cur.SrcLoops < b.SrcLoops && (len(fc.LoopInv) > 0 || len(fc.Unroll) > 0) {
+				return fmt.Sprintf("%s has fewer loops than the baseline (%d, baseline %d) and its contract has clauses for the loops that were there: the proof was written for different code", k, cur.Loops, b.Loops)
+			}
+			// (b0) a loop that changed its form (range / three-clause / condition-only / endless): one iteration no
+			// longer covers the same statements, so rules about "one iteration" and about the events of the
+			// statements that moved into the header speak about other code
+			if len(cur.LoopSigs) == len(b.LoopSigs) {
+				for i := range cur.LoopSigs {
+					if loopForm(cur.LoopSigs[i]) != loopForm(b.LoopSigs[i]) {
+						return fmt.Sprintf("loop %d of %s changed its form (%q, baseline %q): the rules were written for iterations of the other form", i+1, k, cur.LoopSigs[i], b.LoopSigs[i])
+					}
+				}
+			}
+			// (b) a loop whose header was rewritten: invariants inferred / written for the old form may not carry over
+			if proofInternal[f.Kind] && len(cur.LoopSigs) == len(b.LoopSigs) {
+				for i := range cur.LoopSigs {
+					if cur.LoopSigs[i] != b.LoopSigs[i] {
+						return fmt.Sprintf("the header of loop %d of %s was rewritten (%q, baseline %q): the proof of its invariants was written for the other form", i+1, k, cur.LoopSigs[i], b.LoopSigs[i])
+					}
+				}
+			}
+		}
+		// (c) a rule about calls of a function under contract that no longer exists, in a function that now calls
+		// a function the baseline does not know: the callee was replaced, the rule's event can no longer occur
+		if f.Kind == "trace" {
+			for k, ofc := range e.contracts.funcs {
+				if ofc.Assumed || e.fnByKey[k] != nil || !strings.Contains(f.Note, k) {
+					continue
+				}
+				if _, was := base[k]; !was {
+					continue
+				}
+				if nf := e.callsNewFunction(e.fnByKey[owner], base); nf != "" {
+					return "the rule speaks about calls of " + k + ", which no longer exists; " + owner + " now calls " + nf + ", which the baseline does not know"
+				}
+			}
+		}
+		// (f) a per-iteration count rule that finds no occurrence, while the function now calls that callee
+		// outside every loop (or in a closure it did not have): the call was hoisted, not dropped
+		if f.Kind == "trace" {
+			if m := loopCountRule.FindStringSubmatch(f.Note); m != nil && strings.Contains(f.Note, " 0 occurrence") {
+				if fn := e.fnByKey[owner]; fn != nil {
+					if where := e.callsOutsideLoops(fn, m[1], base); where != "" {
+						return "the rule counts " + m[1] + " per loop iteration and finds none, but " + where + " now calls it outside the loop: the call was moved, which the per-iteration rule cannot follow"
+					}
+				}
+			}
+		}
+		// (d) helper postconditions (unlabelled `ensures`, derived from the code) are part of the modular proof:
+		// when one fails, the helper's contract no longer describes the helper; neither that failure nor a
+		// failure in a caller that was checked against that contract is a refutation of the property
+		if unlabelledEnsures.MatchString(name) {
+			return "a helper postcondition of " + owner + " (derived from the code, not from a property) no longer holds: the contract needs maintenance"
+		}
+		for _, k := range []string{owner, f.Fn} {
+			if callee := e.callsBrokenContract(e.fnByKey[k]); callee != "" {
+				return k + " was checked against the contract of " + callee + ", whose helper postconditions no longer hold for its body"
+			}
+		}
+		// (e) the function reads a struct field the baseline did not have: it depends on state for which the
+		// contract has no invariant (sharing / confinement rules are exempt: no invariant could excuse them)
+		if !strings.Contains(f.Note, "private(") && !strings.Contains(f.Note, "evis(") && f.Kind != "guard" && f.Kind != "taint" && f.Kind != "lock" && f.Kind != "locklevel" && f.Kind != "copylock" {
+			for _, k := range []string{owner, f.Fn} {
+				if fld := e.readsNewField(e.fnByKey[k]); fld != "" && obligationMentionsHeapField(f, fld[strings.Index(fld, "."):]) {
+					return k + " reads " + fld + ", a field the baseline did not have: the contract has no invariant for it"
+				}
+			}
 		}
 	}
 	for _, k := range []string{owner, f.Fn} {
